@@ -113,6 +113,6 @@ SUBS = [
 
 MANIFEST = {
     "technique": "exhaustive enumeration of small tree shapes + Hypothesis random models; oracle = intersection of all configurations from an independent brute-force enumerator",
-    "level_text": "Exact for every tree shape up to 5 (quick) / 7 (thorough) features, random sampling to 12 features, with and without constraints.",
+    "level_text": "Exact for every tree shape up to 5 (quick) / 7 (thorough) features, random sampling to 12 features, with and without constraints. Also: models with groups of up to 300 leaves against the exact always-selected set of a constraint-free tree (cross-checked against brute force on every small case), constraint-list models, in-place edit histories. A sample of every sub-check additionally runs in a `python -OO` child with the root logger at DEBUG.",
     "level_note": "Trusted: vf/semantics.py, vf/shapes.py.",
 }
